@@ -245,6 +245,10 @@ def _run(pid, prop, tier, seed, replay, scale, only, scratch, t0):
         return 0
 
     strata = [(s[0], s[1] if tier == "quick" else s[2]) for s in prop.STRATA]
+    qs = float(getattr(prop, "QUICK_SCALE", 1)) if tier == "quick" else 1.0
+    if qs != 1.0:
+        # per-property multiplier for the quick tier (strata with single-digit counts are exhaustive or one-shot)
+        strata = [(n, int(c * qs) if c >= 10 else c) for n, c in strata]
     if only:
         strata = [s for s in strata if s[0] in only]
     jobs = []
